@@ -318,8 +318,15 @@ def opDeq (st : St) (head identToks optToks outToks : List String) : String :=
 -- `CpObs`, `copyObsOfWith`, `cpAccepts`, `resetObsOfWith`, `resetAccepts`, `cycleModelWith`, `cycleAccepts`
 -- live in InspectorModel/Spec/CopyObs.lean (the C06 / C08 theorems are stated about them)
 
-/-- The normalisation applied to every value before observations are compared. -/
-def normV (v : Val) : Val := canon (dropCaps v)
+/-- The normalisation applied to every observed value: capacities and nil/empty dropped — the `norm` the
+C06/C08 theorems are stated with. The order of map entries is ignored only when two observations are compared. -/
+def normV (v : Val) : Val := dropCaps v
+
+def canonCp : CpObs → CpObs
+  | .ok s d m v => .ok s d m (canon v)
+  | o => o
+
+instance : BEq CpObs := ⟨fun a b => CpObs.beq (canonCp a) (canonCp b)⟩
 
 def cpIsPanic : CpObs → Bool
   | .other t => t == "panic"
@@ -332,7 +339,7 @@ def showCpObs : CpObs → String
 def parseCpObs (n : Node) : List String → Option CpObs
   | "ok" :: s :: d :: m :: rest => do
     let (v, _) ← parseVal rest
-    pure (.ok (← s.toNat?) d (m == "1") (canon (dropCaps (coerce n v))))
+    pure (.ok (← s.toNat?) d (m == "1") (dropCaps (coerce n v)))
   | [t] => some (.other t)
   | _ => none
 
@@ -385,7 +392,7 @@ def opReset (st : St) (head outToks : List String) : String :=
     match st.types[tid]?, st.vals[vid]?, parseForm form with
     | some n, some v, some f =>
       let impl : Option CpObs := match outToks with
-        | "ok" :: rest => (parseVal rest).map fun (x, _) => CpObs.ok 0 "-" true (canon (dropCaps (coerce n x)))
+        | "ok" :: rest => (parseVal rest).map fun (x, _) => CpObs.ok 0 "-" true (dropCaps (coerce n x))
         | [t] => some (.other t)
         | _ => none
       (match impl with
@@ -404,8 +411,8 @@ partial def parseCycleSteps (n : Node) : List (List String) → Option (List CpO
     let parts := (" ".intercalate step).splitOn " ; "
     let one (p : String) : Option CpObs :=
       match (p.splitOn " ").filter (· ≠ "") with
-      | "r" :: toks => (parseVal toks).map fun (x, _) => CpObs.ok 0 "r" true (canon (dropCaps (coerce n x)))
-      | "c" :: toks => (parseVal toks).map fun (x, _) => CpObs.ok 0 "c" true (canon (dropCaps (coerce n x)))
+      | "r" :: toks => (parseVal toks).map fun (x, _) => CpObs.ok 0 "r" true (dropCaps (coerce n x))
+      | "c" :: toks => (parseVal toks).map fun (x, _) => CpObs.ok 0 "c" true (dropCaps (coerce n x))
       | [t] => some (.other t)
       | _ => none
     do
@@ -481,9 +488,11 @@ def opAssign (st : St) (head srcToks modeToks outToks : List String) : String :=
 inductive SetObs
   | ok (root : Val) | err (root : Val) | panic
 
+/-- Observations are compared up to the order of map entries (`canon`); the acceptance relations are
+applied to the values as they are (`dropCaps` only) — exactly the form the C03 theorems are stated for. -/
 instance : BEq SetObs := ⟨fun a b => match a, b with
-  | .ok x, .ok y => x == y
-  | .err x, .err y => x == y
+  | .ok x, .ok y => canon x == canon y
+  | .err x, .err y => canon x == canon y
   | .panic, .panic => true
   | _, _ => false⟩
 
@@ -493,8 +502,8 @@ def showSetObs : SetObs → String
   | .panic => "panic"
 
 def setObsOf : SetOut → SetObs
-  | .ok v => .ok (canon (dropCaps v))
-  | .err v => .err (canon (dropCaps v))
+  | .ok v => .ok (dropCaps v)
+  | .err v => .err (dropCaps v)
   | .panic => .panic
 
 /-- S <tid> <form> <vid> | <path> | <src…> | <bufmode> | ok <root> | err <root> | panic -/
@@ -505,8 +514,8 @@ def opSet (st : St) (head pathToks srcToks modeToks outToks : List String) : Str
     | some n, some v, some f, some (p, _), some src =>
       let impl : Option SetObs := match outToks with
         | ["panic"] => some .panic
-        | "ok" :: rest => (parseVal rest).map fun (x, _) => SetObs.ok (canon (dropCaps (coerce n x)))
-        | "err" :: rest => (parseVal rest).map fun (x, _) => SetObs.err (canon (dropCaps (coerce n x)))
+        | "ok" :: rest => (parseVal rest).map fun (x, _) => SetObs.ok (dropCaps (coerce n x))
+        | "err" :: rest => (parseVal rest).map fun (x, _) => SetObs.err (dropCaps (coerce n x))
         | _ => none
       if src.pf == .inexact && src.kind.family == .text then "skip inexact-operand" else
       if p.any (fun s => s.pf == .inexact) then "skip inexact-key" else
@@ -519,7 +528,7 @@ def opSet (st : St) (head pathToks srcToks modeToks outToks : List String) : Str
          let acc (o : SetObs) : Bool :=
            match rootOf f, f with
            | .ok, .val => true       -- by-value destination: only C02 (no panic) applies
-           | .early, _ => o == .ok (canon (dropCaps v))     -- refused without side effects
+           | .early, _ => o == .ok (dropCaps v)     -- refused without side effects
            | .ok, _ =>
              (match o with
               | .ok r => setAccepts n v p src (.ok r)
